@@ -4,6 +4,7 @@ import (
 	"fmt"
 	"io"
 	"sync"
+	"sync/atomic"
 
 	"github.com/bmeg/grip/engine/pipeline"
 	"github.com/bmeg/grip/gdbi"
@@ -224,8 +225,20 @@ func (server *GripServer) BulkAdd(stream gripql.Edit_BulkAddServer) error {
 	var insertCount int32
 	var errorCount int32
 
-	elementStream := make(chan *gdbi.GraphElement, 100)
+	// elements of the current graph are handed to one BulkAdd call of its
+	// driver through elementStream; nil while no graph is being written
+	var elementStream chan *gdbi.GraphElement
 	wg := &sync.WaitGroup{}
+	closeStream := func() {
+		if elementStream != nil {
+			close(elementStream)
+			elementStream = nil
+		}
+		// let the previous graph's load finish before another one starts, so
+		// that a stream coming back to a graph is applied in stream order
+		wg.Wait()
+		graphName = ""
+	}
 
 	for {
 		element, err := stream.Recv()
@@ -234,31 +247,31 @@ func (server *GripServer) BulkAdd(stream gripql.Edit_BulkAddServer) error {
 		}
 		if err != nil {
 			log.WithFields(log.Fields{"error": err}).Error("BulkAdd: streaming error")
-			errorCount++
+			atomic.AddInt32(&errorCount, 1)
 			break
 		}
 
 		if isSchema(element.Graph) {
 			err := "cannot add element to schema graph"
 			log.WithFields(log.Fields{"error": err}).Error("BulkAdd: error")
-			errorCount++
+			atomic.AddInt32(&errorCount, 1)
 			continue
 		}
 
 		// create a BulkAdd stream per graph
 		// close and switch when a new graph is encountered
-		if element.Graph != graphName {
-			close(elementStream)
+		if element.Graph != graphName || elementStream == nil {
+			closeStream()
 			gdb, err := server.getGraphDB(element.Graph)
 			if err != nil {
-				errorCount++
+				atomic.AddInt32(&errorCount, 1)
 				continue
 			}
 
 			graph, err := gdb.Graph(element.Graph)
 			if err != nil {
 				log.WithFields(log.Fields{"error": err}).Error("BulkAdd: error")
-				errorCount++
+				atomic.AddInt32(&errorCount, 1)
 				continue
 			}
 
@@ -266,22 +279,22 @@ func (server *GripServer) BulkAdd(stream gripql.Edit_BulkAddServer) error {
 			elementStream = make(chan *gdbi.GraphElement, 100)
 
 			wg.Add(1)
-			go func() {
-				log.WithFields(log.Fields{"graph": element.Graph}).Info("BulkAdd: streaming elements to graph")
-				err := graph.BulkAdd(elementStream)
+			go func(name string, elements chan *gdbi.GraphElement) {
+				defer wg.Done()
+				log.WithFields(log.Fields{"graph": name}).Info("BulkAdd: streaming elements to graph")
+				err := graph.BulkAdd(elements)
 				if err != nil {
-					log.WithFields(log.Fields{"graph": element.Graph, "error": err}).Error("BulkAdd: error")
+					log.WithFields(log.Fields{"graph": name, "error": err}).Error("BulkAdd: error")
 					// not a good representation of the true number of errors
-					errorCount++
+					atomic.AddInt32(&errorCount, 1)
 				}
-				wg.Done()
-			}()
+			}(graphName, elementStream)
 		}
 
 		if element.Vertex != nil {
 			err := element.Vertex.Validate()
 			if err != nil {
-				errorCount++
+				atomic.AddInt32(&errorCount, 1)
 				log.WithFields(log.Fields{"graph": element.Graph, "error": err}).Errorf("BulkAdd: vertex validation failed")
 			} else {
 				insertCount++
@@ -295,7 +308,7 @@ func (server *GripServer) BulkAdd(stream gripql.Edit_BulkAddServer) error {
 			}
 			err := element.Edge.Validate()
 			if err != nil {
-				errorCount++
+				atomic.AddInt32(&errorCount, 1)
 				log.WithFields(log.Fields{"graph": element.Graph, "error": err}).Errorf("BulkAdd: edge validation failed")
 			} else {
 				insertCount++
@@ -304,10 +317,9 @@ func (server *GripServer) BulkAdd(stream gripql.Edit_BulkAddServer) error {
 		}
 	}
 
-	close(elementStream)
-	wg.Wait()
+	closeStream()
 
-	return stream.SendAndClose(&gripql.BulkEditResult{InsertCount: insertCount, ErrorCount: errorCount})
+	return stream.SendAndClose(&gripql.BulkEditResult{InsertCount: insertCount, ErrorCount: atomic.LoadInt32(&errorCount)})
 }
 
 // DeleteVertex deletes a vertex from the server
